@@ -132,8 +132,8 @@ func c12R1(p *core.Prog, r *core.Report) {
 			r.Held(rule, fn, label, pos, "NoMirrors: true")
 		}
 	}
-	if mut < 10 {
-		r.Undecided(rule, "-", "mutating-literal floor", "-", fmt.Sprintf("only %d state-changing Req literals found, 10 confirmed by hand", mut))
+	if mut < 5 {
+		r.Undecided(rule, "-", "mutating-literal floor", "-", fmt.Sprintf("only %d state-changing Req literals found (10 on the tree the rule was written for)", mut))
 	}
 }
 
